@@ -116,7 +116,9 @@ class Numerical(hyperparameter.HyperParameter):
         """Get the total number of possible values using step."""
         if self.sampling == "linear":
             # +1 so that max_value may be sampled.
-            return int((self.max_value - self.min_value) // self.step + 1)
+            return (
+                int((self.max_value - self.min_value) / self.step + 1e-8) + 1
+            )
         # For log and reverse_log
         # +1 so that max_value may be sampled.
         return (
@@ -164,7 +166,7 @@ class Numerical(hyperparameter.HyperParameter):
         function takes care of the inclusion of max_value.
         """
         if self.sampling == "linear":
-            index = (value - self.min_value) // self.step
+            index = int((value - self.min_value) / self.step + 1e-8)
         if self.sampling == "log":
             index = math.log(value / self.min_value, self.step)
         if self.sampling == "reverse_log":
